@@ -21,6 +21,8 @@ harness in a `schema` line, taken from the real descriptors through protoreflect
   iset <ty> <resW> <M> <stored> <src> <bkeys> <akeys>
                                                     -> err:<code> | panic | <stored'>   (delta interceptors on the
                                                        integer fields named, `_` = none: InterceptBefore / InterceptAfter)
+  iset <ty> <resW> <M> <R> <stored> <src> <bkeys> <akeys>
+                                                    -> the same with the reset mask <R> of the server's own
   wseq <ty> <ropts> <stored> <steps>                -> <outcome> { " | " <outcome> } | config-panic
        ropts := '_' | ropt {';' ropt}     ropt := 'F'<mask> | 'P'<mask>      (WithWritableFields / WithWritablePaths)
        steps := step {'|' step}           step := wopts '@' ['+'] <src>      ('+': Collection.Add of a new item)
@@ -180,6 +182,15 @@ def handleS (S : Schema) (toks : List String) : Schema × String :=
       | .ok st _ => (S, showMsg st)
       | o => (S, showSetOut o)
     | _, _, _, _, _, _, _ => bad
+  | ["iset", ty, rw, m, r, d, s, bi, ai] =>
+    -- the same with a reset mask of the server's own (lightpb MemoryDevice: WithResetPaths next to the request's mask)
+    match ty.toNat?, parseMask rw, parseMask m, parseMask r, parseMessage d, parseMessage s, parseKeys bi, parseKeys ai with
+    | some ty, some rw, some m, some r, some d, some s, some bi, some ai =>
+      let u := fieldUpdater rw none false m r
+      match valueSetI S ty u (bi.map deltaIcpt) (ai.map deltaIcpt) d s with
+      | .ok st _ => (S, showMsg st)
+      | o => (S, showSetOut o)
+    | _, _, _, _, _, _, _, _ => bad
   | ["wseq", ty, ro, d, steps] =>
     match ty.toNat?, parseList parseROpt ro, parseMessage d, (steps.splitOn "|").mapM parseStep with
     | some ty, some ro, some d, some steps =>
